@@ -548,7 +548,7 @@ func TestVerifC06Hist(t *testing.T) {
 			}
 			h.Op("%s", sb.String())
 		}
-		h.Tag(fmt.Sprintf("topo-sockets:%d-nodes:%d-threads:%d", dims[0], dims[0]*dims[1], dims[3]))
+		h.Tag(fmt.Sprintf("topo:%dx%dx%dx%d", dims[0], dims[1], dims[2], dims[3]))
 		h.Tag(fmt.Sprintf("maxref:%d", maxRef))
 		h.Tag(fmt.Sprintf("cpu-ratio:%d/%d", ratioNum, ratioDen))
 		// the options stored in the manager must be the same before and after every scheduling step
@@ -573,6 +573,7 @@ func TestVerifC06Hist(t *testing.T) {
 
 		shadow := map[int]*c06Shadow{}
 		allDrawn := true
+		numaDrawn := true // every recorded NUMA amount was within capacity minus what live pods held
 		nextUID := 1
 		isReserved := map[int]bool{}
 		for _, c := range reserved {
@@ -637,6 +638,16 @@ func TestVerifC06Hist(t *testing.T) {
 					break
 				}
 			}
+			if numaDrawn {
+				for _, k := range c06SortedCellKeys(cells) {
+					if cells[k] > capAmp[k] {
+						h.Fail("C06:numa-over-capacity", "%s: cell %d (NUMA node %d, dim %d) has %d allocated but its capacity is %d (raw %d x ratio %d/%d)",
+							what, k, k/16, k%16, cells[k], capAmp[k], capCell[k], ratioNum, ratioDen)
+						break
+					}
+				}
+			}
+			storedOK(what)
 			if allDrawn {
 				for _, c := range all {
 					if refs[c] > maxRef {
@@ -699,17 +710,21 @@ func TestVerifC06Hist(t *testing.T) {
 				if memReq > 0 {
 					requests[corev1.ResourceMemory] = c06Milli(memReq)
 				}
-				options := &ResourceOptions{
-					numCPUsNeeded:         ncpu,
-					requestCPUBind:        requestCPUBind,
-					requests:              requests,
-					originalRequests:      requests.DeepCopy(),
-					requiredCPUBindPolicy: required,
-					cpuBindPolicy:         bind,
-					cpuExclusivePolicy:    excl,
-					topologyOptions:       tom.GetTopologyOptions(c06Node),
+				// the options come from the plugin's own getResourceOptions (amplification of the NUMA capacities by the
+				// node's ratio annotation, bind-policy resolution), as in Filter / Reserve
+				state := &preFilterState{
+					requestCPUBind:              requestCPUBind,
+					requests:                    requests,
+					numCPUsNeeded:               ncpu,
+					preferredCPUExclusivePolicy: excl,
+				}
+				if required {
+					state.requiredCPUBindPolicy = bind
+				} else {
+					state.preferredCPUBindPolicy = bind
 				}
 				var hint []int
+				affinity := topologymanager.NUMATopologyHint{}
 				if r.Chance(1, 2) {
 					for nd := 0; nd < numNodes; nd++ {
 						if r.Bool() {
@@ -720,7 +735,7 @@ func TestVerifC06Hist(t *testing.T) {
 						hint = []int{r.Intn(numNodes)}
 					}
 					mask, _ := bitmask.NewBitMask(hint...)
-					options.hint = topologymanager.NUMATopologyHint{NUMANodeAffinity: mask}
+					affinity = topologymanager.NUMATopologyHint{NUMANodeAffinity: mask}
 				}
 				// the pod's own previous holding is released by Update, not by Allocate: allocate as the scheduler
 				// does, for a pod that is not in the ledger
@@ -733,7 +748,7 @@ func TestVerifC06Hist(t *testing.T) {
 				freeNow = shadowAvail(-1)
 				// NUMA free amounts as the property reads them: capacity minus what live pods hold
 				numaFree := map[int]int64{}
-				for k, v := range capCell {
+				for k, v := range capAmp {
 					numaFree[k] = v
 				}
 				for _, p := range shadow {
@@ -746,24 +761,91 @@ func TestVerifC06Hist(t *testing.T) {
 				}
 				pod := &corev1.Pod{ObjectMeta: metav1.ObjectMeta{UID: types.UID(strconv.Itoa(uid)), Name: "p", Namespace: "d"}}
 				var alloc *PodAllocation
-				okAlloc := false
+				var options *ResourceOptions
+				okAlloc, optErr := false, false
 				if h.Guard(func() {
-					a, st := rm.Allocate(node, pod, options)
+					var err error
+					options, err = plugin.getResourceOptions(state, node, requestCPUBind, affinity, tom.GetTopologyOptions(c06Node))
+					if err != nil {
+						optErr = true
+						return
+					}
+					a, st := tryAllocateFromNode(rm, nil, &nodeReservationRestoreStateData{}, options, pod, node)
 					if st.IsSuccess() && a != nil {
 						alloc, okAlloc = a, true
 					}
 				}) {
 					h.Tag("alloc:panic")
-					h.Fail("C06:allocate-panic", "Allocate panicked")
+					h.Fail("C06:allocate-panic", "getResourceOptions / Allocate panicked")
 					continue
+				}
+				if optErr || options == nil {
+					h.Fail("C06:allocate-panic", "getResourceOptions failed on a well-formed ratio annotation")
+					continue
+				}
+				{ // the NUMA capacities the resource manager was given
+					got := map[int]int64{}
+					for _, nr := range options.topologyOptions.NUMANodeResources {
+						for name, q := range nr.Resources {
+							got[nr.Node*16+c06Dim(name)] = q.MilliValue()
+						}
+					}
+					var sb strings.Builder
+					sb.WriteString("opts")
+					for _, k := range c06SortedCellKeys(got) {
+						fmt.Fprintf(&sb, " %d %d", k, got[k])
+					}
+					h.Op("opts")
+					h.Obs("%s", sb.String())
+					for k, v := range capCell {
+						if k%16 == 0 && ratioNum > ratioDen && extension.Amplify(v, extension.Ratio(float64(ratioNum)/float64(ratioDen))) != capAmp[k] {
+							h.Fail("C06:float-assumption", "Amplify(%d, %d/%d) is not ceil(x*num/den) = %d", v, ratioNum, ratioDen, capAmp[k])
+						}
+					}
+					for _, k := range c06SortedCellKeys(capAmp) {
+						if got[k] != capAmp[k] || len(got) != len(capAmp) {
+							h.Fail("C06:numa-capacity-wrong", "options give NUMA cell %d capacity %d, raw %d x ratio %d/%d is %d", k, got[k], capCell[k], ratioNum, ratioDen, capAmp[k])
+							break
+						}
+					}
+				}
+				{
+					var sb strings.Builder
+					fmt.Fprintf(&sb, "alloc %d %d %d %d %d %d %d %s", uid, c06Excl(excl), c06BindEnum(bind), vB(required), vB(requestCPUBind), ncpu, vB(hint != nil), c06Blk(hint))
+					nreq := 1
+					if memReq > 0 {
+						nreq = 2
+					}
+					cpuq := requests[corev1.ResourceCPU]
+					fmt.Fprintf(&sb, " %d 0 %d", nreq, cpuq.MilliValue())
+					if memReq > 0 {
+						fmt.Fprintf(&sb, " 1 %d", memReq)
+					}
+					h.Op("%s", sb.String())
 				}
 				usedAlloc = true
 				h.Tag(fmt.Sprintf("alloc-ok:%d", vB(okAlloc)))
 				h.Tag(fmt.Sprintf("alloc-bind:%d-req:%d-hint:%d", c06BindEnum(bind), vB(required), vB(hint != nil)))
 				if !okAlloc {
+					h.Obs("alloc 0")
+					storedOK("allocate (failed)")
 					continue
 				}
 				got := c06SortedCPUs(alloc.CPUSet)
+				{
+					ac := map[int]int64{}
+					for _, nr := range alloc.NUMANodeResources {
+						for name, q := range nr.Resources {
+							ac[nr.Node*16+c06Dim(name)] += q.MilliValue()
+						}
+					}
+					var sb strings.Builder
+					fmt.Fprintf(&sb, "alloc 1 %s %d", c06Blk(got), len(ac))
+					for _, k := range c06SortedCellKeys(ac) {
+						fmt.Fprintf(&sb, " %d %d", k, ac[k])
+					}
+					h.Obs("%s", sb.String())
+				}
 				// ---- picker oracle
 				if requestCPUBind {
 					if len(got) != ncpu {
@@ -819,7 +901,10 @@ func TestVerifC06Hist(t *testing.T) {
 						}
 					}
 				}
-				h.Op("%s", c06PodOp("upd", uid, c06Excl(excl), got, cells, order))
+				if hint == nil && len(order) > 0 {
+					h.Fail("C06:numa-outside-hint", "no NUMA hint, but NUMA amounts %v were allocated", cells)
+				}
+				h.Op("commit") // the model updates its ledger with ITS OWN allocation, not with the one returned here
 				rm.Update(c06Node, alloc)
 				shadow[uid] = &c06Shadow{cpus: got, cells: cells}
 				check("allocate+update")
@@ -851,6 +936,24 @@ func TestVerifC06Hist(t *testing.T) {
 							k := nd*16 + d
 							cells[k] = int64(r.Range(0, 8)) * 500
 							order = append(order, k)
+							// usually within what the node still has (capacity minus the other live pods' amounts)
+							left := capAmp[k]
+							for u, p := range shadow {
+								if u != uid {
+									left -= p.cells[k]
+								}
+							}
+							if left < 0 {
+								left = 0
+							}
+							if cells[k] > left {
+								if r.Chance(2, 3) {
+									cells[k] = left
+								} else {
+									numaDrawn = false
+									h.Tag("hist:numa-undrawn")
+								}
+							}
 						}
 					}
 				}
@@ -916,6 +1019,19 @@ func TestVerifC06Hist(t *testing.T) {
 				h.Op("%s", ob.String())
 				h.Obs("%s", sb.String())
 				h.Tag("hist:numa-available")
+				// the same query with the options of getResourceOptions (amplified capacities, amplified cpuset charge)
+				if opt, err := plugin.getResourceOptions(&preFilterState{requests: corev1.ResourceList{}}, node, false, topologymanager.NUMATopologyHint{}, tom.GetTopologyOptions(c06Node)); err == nil {
+					tx, _, _ := rm.getAvailableNUMANodeResources(c06Node, opt.topologyOptions, nil)
+					var xb strings.Builder
+					xb.WriteString("navail")
+					for _, k := range keys {
+						q := tx[k/16][c06ResNames[k%16]]
+						fmt.Fprintf(&xb, " %d %d", k, q.MilliValue())
+					}
+					h.Op("navailx")
+					h.Obs("%s", xb.String())
+					storedOK("numa-available")
+				}
 			}
 		}
 		if usedAlloc && len(shadow) > 0 {
@@ -928,6 +1044,23 @@ func TestVerifC06Hist(t *testing.T) {
 		"(all bind/exclusive policies, required or not, with/without NUMA hint) followed by Update, foreign Update (sometimes " +
 		"not drawn from the free set), duplicate add, Release (known/unknown), queries. non-trivial = at least one real " +
 		"Allocate ran and a pod is live at the end")
+}
+
+func c06SortedCellKeys(m map[int]int64) []int {
+	var out []int
+	for k := range m {
+		out = append(out, k)
+	}
+	sort.Ints(out)
+	return out
+}
+
+// c06Amplify: ceil(x*num/den) for a ratio num/den > 1, x otherwise (x >= 0).
+func c06Amplify(x, num, den int64) int64 {
+	if num <= den {
+		return x
+	}
+	return (x*num + den - 1) / den
 }
 
 func c06SortedKeys(m map[int]bool) []int {
